@@ -26,6 +26,24 @@ use quote::ToTokens;
 
 use self::out_trait::OutTrait;
 
+/// The reference part of a shared-reference receiver, written either
+/// as `&self` / `&'a self` or in the typed form `self: &Self` / `self: &'a Self`.
+fn receiver_reference(
+    receiver: &syn::Receiver,
+) -> Option<(syn::token::And, Option<syn::Lifetime>)> {
+    if let Some(reference) = &receiver.reference {
+        return Some(reference.clone());
+    }
+    match receiver.ty.as_ref() {
+        syn::Type::Reference(reference)
+            if receiver.colon_token.is_some() && reference.mutability.is_none() =>
+        {
+            Some((reference.and_token, reference.lifetime.clone()))
+        }
+        _ => None,
+    }
+}
+
 #[derive(Clone, Copy)]
 struct ContainsAsync(bool);
 
@@ -167,7 +185,7 @@ fn gen_impl_delegation_trait_defs(
 
                 if let Some(first_arg) = trait_fn.entrait_sig.sig.inputs.first_mut() {
                     if let syn::FnArg::Receiver(receiver) = first_arg {
-                        *first_arg = if let Some((and, lifetime)) = receiver.reference.clone() {
+                        *first_arg = if let Some((and, lifetime)) = receiver_reference(receiver) {
                             syn::parse_quote! {
                                 __impl: #and #lifetime ::#entrait::Impl<EntraitT>
                             }
